@@ -122,7 +122,33 @@ def run(tier, seed):
     from .. import gen2
     rrng = chk.rng("recovery")
     nrec = {"quick": 24, "thorough": 200}[tier]
-    subj2, rcases = pipeline.make_cases(chk, rrng, nrec, gen2.gen_recovery, ["td_lane", "td_lalr"], subject_name="subject_rec")
+
+    def genrec(r):
+        # recovery grammars whose ordinary alternatives may have fallible (`=>?`) actions: an action
+        # can then fail while it runs as a reduction pending under the `!` lookahead
+        g = gen2.gen_recovery(r)
+        if r.random() < 0.6:
+            # an error alternative that continues an existing alternative right after one of its
+            # NONTERMINALS:  X = a N b  ~>  X = a N @L ! @R   (N is then reduced under `!`)
+            cands = [(nt, alt, k) for nt in g.nts for alt in nt.alts
+                     if not any(it.sym.k in ("err", "L", "R") for it in alt.items)
+                     for k, it in enumerate(alt.items) if it.sym.k == "n"]
+            if cands:
+                import copy
+                from ..gmodel import Alt, Item, Sym
+                nt, alt, k = r.choice(cands)
+                items = [Item(copy.deepcopy(it.sym)) for it in alt.items[:k + 1]] + [Item(Sym("L")), Item(Sym("err")), Item(Sym("R"))]
+                a2 = Alt(items)
+                gen2.full_named(a2)
+                nt.alts.append(a2)
+                gen._assign_pids(g)
+        if r.random() < 0.8:
+            for nt in g.nts:
+                for alt in nt.alts:
+                    if alt.action == "named" and not any(it.sym.k == "err" for it in alt.items) and r.random() < 0.5:
+                        alt.fallible = True
+        return g
+    subj2, rcases = pipeline.make_cases(chk, rrng, nrec, genrec, ["td_lane", "td_lalr"], subject_name="subject_rec")
     execs2 = []
     for c in rcases:
         c.cfg_noerr = gmodel_desugar(gen2.strip_errors(c.g))
@@ -133,12 +159,24 @@ def run(tier, seed):
             for _ in range({"quick": 30, "thorough": 120}[tier]):
                 base = irng.choice(sents) if sents else [irng.choice(alphabet) for _ in range(5)]
                 ins.append(gen.mutate(irng, base, alphabet + ["?"], nmut=irng.choice([1, 2, 2, 3, 4])))
+            rfall = sorted({a.pid for nt in c.g.nts for a in nt.alts if a.fallible})
             for w in ins:
                 gap = irng.choice([0, 5])
                 for j in range(len(w) + 1):
                     tag = irng.choice(list(c.mods)) if c.mods else None
                     if tag:
                         execs2.append(pipeline.Exec(c, s, w, gap, tag, shape="R", err_at=j))
+                if rfall and c.mods:
+                    # actions failing on corrupted input, with and without a stream error
+                    plans = [[(p_, -1)] for p_ in (rfall if len(rfall) <= 8 else irng.sample(rfall, 8))]
+                    plans += [[(irng.choice(rfall), irng.choice([0, 1, 2]))] for _ in range(3)]
+                    for f in plans:
+                        if irng.random() < 0.3 and len(rfall) > 1:
+                            f.append((irng.choice(rfall), -1))
+                        tag = irng.choice(list(c.mods))
+                        execs2.append(pipeline.Exec(c, s, w, gap, tag, shape=irng.choice("TR"), err_at=None, fails=f))
+                        if irng.random() < 0.4:
+                            execs2.append(pipeline.Exec(c, s, w, gap, tag, shape="R", err_at=irng.randint(0, len(w)), fails=f))
     res2 = pipeline.run_execs(subj2, execs2)
     for e in execs2:
         chk.evaluations += 1
@@ -148,6 +186,8 @@ def run(tier, seed):
             evs = pipeline.parse_events(rec["ev"])
             if any(k == "e" for k, _ in evs):
                 chk.count("recovery_grammar_stream_error_surfaced")
+            elif e.fails:
+                chk.count("recovery_grammar_action_error_surfaced")
     chk.extra["recovery_grammars"] = len(rcases)
     orcs = {}
     for e in execs:
